@@ -28,5 +28,10 @@ for d in sorted((HOME / "seeded").glob("C*-[A-L]")):
     needs = str(m.get("needs_to_manifest", "")).replace("|", "/").replace("\n", " ")[:220]
     files = ", ".join(Path(f).name for f in m.get("files_touched", [])[:2])
     out.append(f"| {d.name} | {title} ({files}) | {needs} | {o[0] + ' / `' + o[2] + '`' if o else 'n/a'} | {others} |")
+out += ["", "`MATRIX_OWN.tsv` (written by `tools/matrix_own`, last full pass on the final check code): every one of the 180 changes against the",
+        "check of the property it was written for. 178 are detected there; the two that are not, C02-F and C02-I, break C04/C18 rather than C02",
+        "(an `allclose` in the HDF5 append test; the restored id table) and are detected by those checks. Two rows (C05-D, C18-F) were",
+        "re-measured after the pass, when the pass had shown that the detection rested on incidentally generated scenarios: C05 now uses",
+        "constructor defaults for more Gaussian-process options, C18 has an explicit failing-batch op."]
 (HOME / "seeded" / "README.md").write_text("\n".join(out) + "\n")
 print(len(out) - 9, "rows")
